@@ -97,6 +97,67 @@ def int_inputs(est_name):
   return fn
 
 
+def float_corner_cases(est_name):
+  """NOT solver-decided (float64 behaviour, outside the real-arithmetic model): the corners the property's quantifier names --
+  magnitudes from 1e-100 to 1e100 scored in one batch, points far apart, duplicated points, rank-deficient transformations with
+  differences in (or next to) the null space"""
+  def fn(ctx):
+    rs = np.random.RandomState(9)
+    for trial in range(12):
+      d = 3
+      L = rs.randn(2, d) if trial % 2 else np.outer(rs.randn(2), rs.randn(d))        # full row rank / rank one
+      est = mahal.fitted(est_name, L)
+      f = est.get_metric()
+      # (a) one batch mixing tiny, ordinary and huge pairs: a pair's distance does not depend on its companions
+      scales = [1e-100, 1e-70, 1e-30, 1.0, 1e30, 1e100]
+      P = np.array([[rs.randn(d) * sc, rs.randn(d) * sc] for sc in scales])
+      D = est.pair_distance(P)
+      for i in range(len(scales)):
+        alone = est.pair_distance(P[i:i + 1])[0]
+        swapped = est.pair_distance(P[i:i + 1, ::-1])[0]
+        ctx.require('distance_finite_and_nonnegative_at_every_magnitude', ctx.cond(np.isfinite(D[i]) and D[i] >= 0))
+        ctx.require('distance_of_a_pair_does_not_depend_on_the_batch', ctx.cond(D[i] == alone or abs(D[i] - alone) <= 1e-12 * alone))
+        ctx.require('symmetry_exact_across_calls_and_batches', ctx.cond(swapped == alone and (D[i] == 0) == (swapped == 0)))
+        ctx.require('metric_fun_agrees_at_every_magnitude', ctx.cond(abs(f(P[i, 0], P[i, 1]) - alone) <= 1e-12 * max(alone, 1e-300)))
+        ctx.require('pair_score_is_negated_distance_exactly', ctx.cond(est.pair_score(P[i:i + 1])[0] == -alone))
+      # (b) differences in / next to the null space of a rank-deficient transformation: finite, >= 0, zero for exact null vectors of an
+      # integer-valued L, triangle inequality through the degenerate leg
+      Li = rs.randint(-3, 4, size=(1, d)).astype(float)
+      if not Li.any():
+        Li[0, 0] = 1.0
+      e2 = mahal.fitted(est_name, np.vstack([Li, 2 * Li]))                            # rank one, integer entries
+      nv = np.cross(Li[0], rs.randint(-3, 4, size=d).astype(float))                    # exactly orthogonal to the row (integers)
+      x = rs.randint(-5, 6, size=d).astype(float)
+      z = rs.randn(d)
+      for scale in (1.0, 1e8, 1e-8):
+        y = x + nv * scale
+        dxy = e2.pair_distance(np.array([[x, y]]))[0]
+        g = e2.get_metric()
+        ctx.require('null_space_difference_has_finite_distance', ctx.cond(np.isfinite(dxy) and dxy >= 0 and np.isfinite(g(x, y)) and g(x, y) >= 0))
+        if scale == 1.0:
+          ctx.require('null_space_difference_has_zero_distance', ctx.cond(dxy == 0.0 and g(x, y) == 0.0))
+        dxz, dyz = e2.pair_distance(np.array([[x, z], [y, z]]))
+        # rounding allowance: forming y - z with |y| ~ scale loses about eps * |y| per coordinate before the embedding
+        slack = 64 * np.finfo(float).eps * max(np.abs(x).max(), np.abs(y).max(), np.abs(z).max()) * np.abs(e2.components_).sum() + 1e-12 * max(dxz, dyz)
+        ctx.require('triangle_through_a_degenerate_leg', ctx.cond(dxz <= dxy + dyz + slack and dyz <= dxy + dxz + slack))
+      # the same with a generic (non-integer) rank-one transformation: the difference is orthogonal to the row only up to rounding, so a
+      # formula that is not a sum of squares can come out slightly negative before the square root
+      Lr = np.outer(rs.randn(2), rs.randn(d))
+      e3 = mahal.fitted(est_name, Lr)
+      g3 = e3.get_metric()
+      for rep_ in range(12):
+        nv = np.cross(Lr[0], rs.randn(d))
+        x = rs.randn(d)
+        for scale in (1.0, 1e6, 1e-6):
+          y = x + nv * scale
+          dd = e3.pair_distance(np.array([[x, y], [y, x]]))
+          ctx.require('near_null_space_difference_has_finite_nonnegative_distance',
+                      ctx.cond(np.isfinite(dd).all() and (dd >= 0).all() and dd[0] == dd[1] and np.isfinite(g3(x, y)) and g3(x, y) >= 0 and
+                               np.isfinite(g3(x, y, squared=True)) and g3(x, y, squared=True) >= 0))
+      ctx.require('duplicated_point_has_zero_distance', ctx.cond(est.pair_distance(np.array([[z * 1e50, z * 1e50]]))[0] == 0.0 and f(z * 1e-50, z * 1e-50) == 0.0))
+  return fn
+
+
 def structure():
   """every estimator resolves the distance API to the shared implementation that the symbolic
   cases execute (checked per group: a subclass override gets its own symbolic run)."""
@@ -121,6 +182,9 @@ def cases(tier, seed):
                       'components_ arbitrary real %dx%d, three arbitrary real points, group %s (run on %s)'
                       % (k, d, g, rep), tiers=tiers, cost=k * d, proof_timeout_ms=120000,
                       relative_tol=True, tol=1e-9, max_paths=3000, hard_timeout_s=(420 if tier == 'quick' else 3000)))
+    out.append(case('float_corner_cases_g%d' % gi, float_corner_cases(rep), FUNCS,
+                    '12 random transformations (full row rank and rank one), pairs of magnitude 1e-100 .. 1e100 in one batch, null-space differences '
+                    '(concrete float64 runs, sampled; outside the real-arithmetic model)', concrete_only=True, validate=1))
     out.append(case('int_inputs_g%d' % gi, int_inputs(rep), FUNCS,
                     'fixed random components_ 2x3, 40 random integer-dtype point triples (concrete differential run, not solver-decided)',
                     concrete_only=True, validate=1))
